@@ -362,7 +362,7 @@ func c10Straddles(lay c10Layout, k int) bool {
 
 func runC10(w *mon.W) {
 	idx := 0
-	nLay := w.Pick(40000, 1500000)
+	nLay := w.Pick(40000, 5000000)
 	for i := 0; i < nLay; i++ {
 		id := fmt.Sprintf("layout-%d", i)
 		idx++
@@ -432,7 +432,7 @@ func runC10(w *mon.W) {
 	}
 
 	// every rotation of small plasmids
-	nPl := w.Pick(4000, 100000)
+	nPl := w.Pick(4000, 300000)
 	for i := 0; i < nPl; i++ {
 		id := fmt.Sprintf("plasmid-%d", i)
 		idx++
